@@ -23,6 +23,15 @@ MUTANTS = {
         ('readall-no-offset', 'dashlive/utils/buffered_reader.py', 'self.reader.seek(self.pos + self.offset)', 'self.reader.seek(self.pos)'),
         ('evict-newest', 'dashlive/utils/buffered_reader.py', 'v.timestamp < oldest', 'v.timestamp > oldest'),   # harmless: must survive
     ],
+    'C13': [
+        ('range-no-suffix-clamp', 'dashlive/server/requesthandler/base.py', 'start = max(0, content_length - amount)', 'start = content_length - amount'),
+        ('range-no-last-clamp', 'dashlive/server/requesthandler/base.py', 'end = min(int(end_str, 10), content_length - 1)', 'end = int(end_str, 10)'),
+        ('range-416-lt', 'dashlive/server/requesthandler/base.py', 'if end >= content_length or end < start:', 'if end >= content_length or end <= start:'),
+        ('range-open-end', 'dashlive/server/requesthandler/base.py', "            if end_str == '':\n                end = content_length - 1", "            if end_str == '':\n                end = content_length"),
+        ('range-comma-ok', 'dashlive/server/requesthandler/base.py', "        if ',' in http_range:\n            raise ValueError('Multiple ranges not supported')\n", ""),
+        ('range-416-header', 'dashlive/server/requesthandler/base.py', "headers['Content-Range'] = f'bytes */{content_length}'", "pass"),
+        ('range-suffix-end', 'dashlive/server/requesthandler/base.py', "            start = max(0, content_length - amount)\n            end = content_length - 1", "            start = max(0, content_length - amount)\n            end = content_length"),
+    ],
     'C14': [
         ('emsg-no-count-guard', 'dashlive/server/events/repeating_event_base.py', '            if self.count > 0 and event_id >= self.count:\n                break\n            if presentation_time < seg_start:', '            if presentation_time < seg_start:'),
         ('emsg-delta-abs', 'dashlive/server/events/repeating_event_base.py', 'time_delta = presentation_time - seg_start', 'time_delta = presentation_time'),
